@@ -673,3 +673,7 @@ mod tests {
         assert!(result.is_err());
     }
 }
+
+#[cfg(kani)]
+#[path = "/verif/kani/peer_record_proofs.rs"]
+mod verif_proofs;
